@@ -68,8 +68,8 @@ var azPercents = []int64{0, 1, 5, 10, 23, 33, 50, 75, 90, 100, 150, 300, 1000}
 func (c03) Gen(tier string, seed int64) []fw.Unit {
 	r := rngFor(seed, "C03")
 	var us []fw.Unit
-	add := func(tag string, s []byte, pct, layers int64) {
-		us = append(us, Req{Fam: "aztec", S: s, I: []int64{pct, layers}, Scheme: -1}.Unit("aztec", tag))
+	add := func(tag string, s []byte, pct, layers int64, more ...int64) {
+		us = append(us, Req{Fam: "aztec", S: s, I: append([]int64{pct, layers}, more...), Scheme: -1}.Unit("aztec", tag))
 	}
 	scale := 1
 	if tier == "thorough" {
@@ -116,6 +116,9 @@ func (c03) Gen(tier string, seed int64) []fw.Unit {
 	}
 	// payload classes
 	add("empty", nil, 33, 0)
+	add("empty-nil-slice", nil, 33, 0, 1)
+	add("empty-nil-slice", nil, 0, -1, 1)
+	add("empty-nil-slice", nil, 10, 32, 1)
 	add("empty", nil, 0, -1)
 	add("empty", nil, 33, 5)
 	add("all-bytes", allAB, 33, 0)
@@ -178,6 +181,15 @@ func (c03) Gen(tier string, seed int64) []fw.Unit {
 	}
 	for _, sp := range structuredPayloads() {
 		add("structured", sp, 33, 0)
+	}
+	// long texts of one kind each (prose, records, Punct pairs …) up to the largest sizes
+	for class := 0; class < 8; class++ {
+		for _, n := range []int{300, 1200, 2500 + r.Intn(400), 3300 + r.Intn(300)} {
+			add("long-text", azTextClass(seed, class, n), int64(pick(r, []int{0, 5, 23})), 0)
+		}
+	}
+	for _, n := range []int{4000, 5200, 6000 + r.Intn(300), 7000} {
+		add("long-text-pairs", azTextClass(seed, 0, n), 5, 0)
 	}
 	// random bytes
 	for i := 0; i < 100*scale; i++ {
